@@ -108,6 +108,14 @@ func (c *AtlasClient) DownloadClusterLogs(ctx context.Context, publicKey, privat
 		return nil, fmt.Errorf("failed to get hosts from connection string: %w", err)
 	}
 	var logFiles []string
+	// a panic raised below (the HTTP stack parses what the server sent) must not leave
+	// the files downloaded so far behind
+	defer func() {
+		if r := recover(); r != nil {
+			_ = c.DeleteClusterLogs(ctx, logFiles)
+			panic(r)
+		}
+	}()
 	for _, host := range hosts {
 		fmt.Fprintf(os.Stdout, "Downloading logs for host %s...\n", host)
 		logFile, err := c.downloadClusterLogsForHost(ctx, publicKey, privateKey, projectID, host, startDate, endDate)
